@@ -921,6 +921,12 @@ def lattice_tag(ln, a):
 
 def check(run):
     run.prove(MODULE, THEOREMS)
+    # second tie: `_geometry.py` (cross product, monotone chain) translated to Lean on this run, proved equal to the model
+    run.source_tie(['SrcHull', 'SrcHullPoly', 'SrcHullMulti'], 'GeoVerif.Props.C10Src',
+                   ['GV.C10Src.' + t for t in ('cross_eq', 'lowerWhile_eq', 'upperWhile_eq', 'upperLoop_eq', 'lowerLoop_eq',
+                                               'convexHull_eq', 'polyInit_eq', 'hullPoly_eq_init', 'multiPointHull_eq',
+                                               'multiLineHull_eq', 'multiPolyHull_eq', 'src_multiHull', 'src_multi_hull_ring',
+                                               'src_hull_contains_all', 'src_hull_unique', 'src_hull_dup_invariant')])
     rng = run.rng
 
     # 1. exhaustive small world through `_geometry.convex_hull`
